@@ -118,7 +118,8 @@ structure LockEdge where
   pos : String
 deriving Repr
 
-/-- how often one slot phase (`Check`, `OnEntryPassed`, …) enters a critical section of the rule mutex `mu` -/
+/-- how often (maximum over the paths of one call, callees included) one slot phase (`Check`, `OnEntryPassed`, …)
+    enters a *read* section, resp. one rule loading / clearing function a *write* section, of the RW mutex `mu` -/
 structure SlotShape where
   id : Nat
   slot : String
